@@ -819,7 +819,7 @@ def _tot_lines():
               '#2020-01-01 00:00:00 -2147483647:59#', '#2020-01-01 00:00:00 +596523:59#', '#2020-01-01 00:00:00 +9999#', '#jan 1, -2147483647 bc#',
               '#jan 1, 2147483647 bc#', '#jan 1, -2147483648 ad#', 
               '1 -> digits 2147483647', '22/7 -> digits 2147483646', '#2147483647-01-01#', '#0000-00-00#', '#99999-99-99 99:99:99#',
-              '2 kg gold + 3 mol silver', 'gold + gold m', 'radon + radon/m', '1 -> 1/((x=5) - (x=3))', '1 -> ((x=5) - (x=3))^-1', '1 m -> 1/((foot = 2 m) - foot)', '1 -> 1/(molar_mass of gold - molar_mass of silver)', 'm^2147483647 m', '1/m^2147483647/m', '1^2147483648', '1^-2147483648', '0 << 2147483648', '#12:60#', '#2020-01-01 23:60#', 'sqrt(4', 'atan2(1, 2', 'sin(', '(2 kg gold) + (3 m silver)', 'gold + -1 gold', '(gold + -1 gold) -> mol', '1 -> 1/(0+1)', '1 m -> m/(0+2)', '1 -> (0+1)^-1', '12 -> 6 xor 6', '10 foot -> 3 foot - 3 foot', '1 foot -> 7 foot mod 7 foot', '8 m^2 -> (4 m^4)^0.5'):
+              '83.3379372011^4000', '0.999999999^5000', '(22|7)^3000', '2 kg gold + 3 mol silver', 'gold + gold m', 'radon + radon/m', '1 -> 1/((x=5) - (x=3))', '1 -> ((x=5) - (x=3))^-1', '1 m -> 1/((foot = 2 m) - foot)', '1 -> 1/(molar_mass of gold - molar_mass of silver)', 'm^2147483647 m', '1/m^2147483647/m', '1^2147483648', '1^-2147483648', '0 << 2147483648', '#12:60#', '#2020-01-01 23:60#', 'sqrt(4', 'atan2(1, 2', 'sin(', '(2 kg gold) + (3 m silver)', 'gold + -1 gold', '(gold + -1 gold) -> mol', '1 -> 1/(0+1)', '1 m -> m/(0+2)', '1 -> (0+1)^-1', '12 -> 6 xor 6', '10 foot -> 3 foot - 3 foot', '1 foot -> 7 foot mod 7 foot', '8 m^2 -> (4 m^4)^0.5'):
         add(x)
     return out
 
